@@ -8,7 +8,7 @@ RULE = ('every pair of operand formats with n_word<=3 (quick) / <=5 (thorough), 
         'random format pairs with result word <=53 bits, extreme and random codes; operands up to 62 bits whose // and % result words are within 53 bits (x/y checked when its own word is). Checked on the implementation output with exact rationals: x/y exact when representable else one of the two '
         'neighbours (error < 1 LSB), no overflow with optimal sizing, x//y = floor(x/y), x%y = x - y*floor(x/y) with the divisor\'s sign, (x//y)*y + x%y == x, raw and repr agree on // and %; '
         'result formats against the extracted Spec; (D) x/y into an imposed format (sizing same / largest / smallest, plain-number divisors under the default configuration) when the quotient lies inside it: exact or neighbour, no flag; (E) // and % for formats with n_word<=5 whose fraction length is negative or exceeds the word. Non-trivial = the quotient is not an integer multiple of the result LSB; distinct by formats, codes, method, rounding.')
-ASSUMPTIONS = ['real operands, divisor != 0', 'the value (repr) method is exercised only with operands of at most 53 bits (it computes on the operands float values, which must be exact)']
+ASSUMPTIONS = ['real operands, divisor != 0']
 
 def fmts_small(nwmax):
     return [(s, nw, nf) for s in (True, False) for nw in range(1, nwmax + 1) for nf in range(0, nw + 1)]
@@ -235,7 +235,8 @@ def shard(shard, nshards, rng, tier, extra):
             cand = q * Y + rng.choice([0, 1, -1, 2, abs(Y) - 1])
             if lo <= cand <= hi and abs(cand) >= 2**53: cx = cand
         # the value ('repr') method computes on the operands' float values: only for operands that are exact doubles
-        meth = rng.choice(['raw', 'repr']) if max(fxm[1], fym[1]) <= 53 else 'raw'
+        # (only // and % are checked for operands beyond 53 bits - their result words are narrow - and there the two methods must agree as well)
+        meth = rng.choice(['raw', 'repr'])
         cases.append((fxm, cx, fym, cy, meth, rng.choice(['trunc', 'floor', 'around'])))
     run_cases(cases, res, 'C:wide-operands-small-results')
     run_imposed(imposed_cases(rng, (1500 if tier == 'quick' else 40000) // nshards), res)
